@@ -2,7 +2,7 @@
 import re
 from ..core import pan, terms, tab, ordrules
 from ..core.facts import callee_name
-from ..core.prog import canon, Prog
+from ..core.prog import canon, alloc_site, Prog
 from . import panrules
 from .iter_rules import *
 
@@ -95,7 +95,13 @@ def run(chk, ctx):
         chk.require(pt == {(frozenset([(MS, False), (NXE, ("None",))]), "Err"), (frozenset([(MS, True), (NXE, ("None",))]), "Ok")}, "TAB", "TAB:build_output_indices:exact-outcome",
                     "after the full scan: Err(MissingOutputs) iff some read output was not found among the driver's outputs", "build_output_indices decides %s" % sorted(pt, key=str))
         # found_outputs gets the signal index exactly when the entry is Output(_)
-        pushf = [bb for bb, t in boi.calls() if callee_name(t)[0] == "std::vec::Vec::push" and not canon(P.call_arg_terms(boi, bb)[0]).startswith("Vec::with_capacity")]
+        out_sites = set()
+        for bb_ in sorted(boi.reachable_blocks()):
+            for i_, st_ in enumerate(boi.blocks[bb_]["stmts"]):
+                if st_["s"] == "assign" and any(isinstance(e, dict) and e.get("f") == "output_indices" for e in st_["lhs"]["p"]):
+                    out_sites.add(alloc_site(P.resolve(boi, P.sl(boi).rvalue(st_["rv"], bb_, i_))))
+        # found_outputs is the vector that is *not* the layout stored into self.output_indices (identified by allocation site)
+        pushf = [bb for bb, t in boi.calls() if callee_name(t)[0] == "std::vec::Vec::push" and alloc_site(P.call_arg_terms(boi, bb)[0]) not in out_sites]
         nextb = [bb for bb, t in boi.calls() if callee_name(t)[0] == "<std::slice::Iter<T> as std::iter::Iterator>::next"]
         if chk.anchor("found_outputs push", len(pushf) == 1 and len(nextb) == 1):
             rows = set()
